@@ -252,6 +252,15 @@ pub fn check_c16(c: &ZCase, acc: &mut Acc, record: bool) -> Verdict {
                     _ => 0,
                 }
             };
+            // whatever a damaged frame decodes to, it is made of inflated bytes only: the result may not depend on what
+            // fresh heap memory contains (allocator pre-fill 0x53 / 0xAC)
+            let pa = crate::alloc::with_poison(0x53, || guarded(|| SliceInput::new(&t).read_compressed().ok()));
+            let pb = crate::alloc::with_poison(0xAC, || guarded(|| SliceInput::new(&t).read_compressed().ok()));
+            if let (Ok(a), Ok(b)) = (&pa, &pb) {
+                if a != b {
+                    return Verdict::Fail(format!("read_compressed on a damaged frame (head {}) returns bytes that depend on the content of fresh heap memory: {} vs {} bytes, first difference at {:?} — uninitialised memory is exposed", hex(&t[..t.len().min(16)]), a.as_ref().map(|x| x.len()).unwrap_or(0), b.as_ref().map(|x| x.len()).unwrap_or(0), a.as_ref().zip(b.as_ref()).and_then(|(x, y)| x.iter().zip(y.iter()).position(|(p, q)| p != q))));
+                }
+            }
             let bound = (64usize << 10).max(2 * produced + 4096);
             for i in 0..3 {
                 let (r, stats) = measure(|| {
@@ -307,7 +316,7 @@ pub fn run_c16(cx: &Cx) -> PropResult {
     let mut r = PropResult::new(
         acc,
         "fault_enumeration",
-        "cases = (content: empty / random (incompressible) / one byte repeated / short period / text-like / concatenations, 0 .. 256 KiB (thorough 8 MiB) incl. the lengths 63/64/127/128/16383/16384/65535/65536; compression level 0-9; suffix; fault). Oracles: Vec<u8>, BytesMut and SerializationContext produce the same frame; frame == varint(len d) ++ varint(len z) ++ z with z inflating to d under an independent flate2 decoder; SliceInput, OwnedInput and DeserializationContext read d back and leave exactly the suffix; faults: every truncation point (exhaustive for frames <= 2 KiB, 24 sampled points above) must be Err on all three sources; 1-2 bit flips anywhere and rewrites of either header varint to 0, 1, v+-1, 2v, v/2, 65536, 2^20, 2^31, 2^32-1 must give Ok or Err without panic and without a single allocation request above max(64 KiB, 2 x bytes an independent streaming inflate of the same payload produces + 4 KiB); a request above 3 GiB traps in the allocator and is reported by the supervisor. Non-trivial = content >= 64 bytes or a fault injected.",
+        "cases = (content: empty / random (incompressible) / one byte repeated / short period / text-like / concatenations, 0 .. 256 KiB (thorough 8 MiB) incl. the lengths 63/64/127/128/16383/16384/65535/65536; compression level 0-9; suffix; fault). Oracles: Vec<u8>, BytesMut and SerializationContext produce the same frame; frame == varint(len d) ++ varint(len z) ++ z with z inflating to d under an independent flate2 decoder; SliceInput, OwnedInput and DeserializationContext read d back and leave exactly the suffix; faults: every truncation point (exhaustive for frames <= 2 KiB, 24 sampled points above) must be Err on all three sources; 1-2 bit flips anywhere and rewrites of either header varint to 0, 1, v+-1, 2v, v/2, 65536, 2^20, 2^31, 2^32-1 must give Ok or Err without panic and without a single allocation request above max(64 KiB, 2 x bytes an independent streaming inflate of the same payload produces + 4 KiB); a request above 3 GiB traps in the allocator and is reported by the supervisor; the result of reading a damaged frame must not depend on the content of fresh heap memory (allocator pre-fill 0x53 / 0xAC). Non-trivial = content >= 64 bytes or a fault injected.",
     );
     r.assumptions = vec!["flate2 is used directly (not through desert) as the independent inflate".into()];
     r
